@@ -134,7 +134,12 @@ BLOCKS = {
     'out_10': [10.0],
     'zero': [0.0],
     'one': [1.0],
+    # a simple in-range root with an out-of-range twin 6e-6 away (closer than the duplicate tolerance)
+    'straddle_one': [1.0 - 3e-6, 1.0 + 3e-6],
+    'straddle_zero': [3e-6, -3e-6],
 }
+# in-range members of blocks that must come back exactly once from the 0..1 filters
+DEMANDED_IN_BLOCK = {'straddle_one': 1.0 - 3e-6, 'straddle_zero': 3e-6}
 _ORIG_ROOTS = np.roots
 _ENV = {'perm': None, 'calls': 0, 'cache': None}
 
@@ -161,6 +166,8 @@ def multisets(maxdeg):
                     if 'pair_1e-5' in B and 'pair_1e-9' in B:
                         continue
                     if 'pair_1e-7' in B and 'double' in B:
+                        continue
+                    if ('straddle_one' in B and 'one' in B) or ('straddle_zero' in B and 'zero' in B):
                         continue
                     roots = list(S)
                     for b in B:
@@ -192,6 +199,15 @@ def check_roots(S, B, roots, perm, acc, case):
                               case, observed=[core.jz(g) for g in got], expected='%r exactly once' % s,
                               detail='roots=%r perm=%r' % (roots, perm))
         if fn != 'polyroots_all':
+            for b in B:
+                if b in DEMANDED_IN_BLOCK:
+                    want = DEMANDED_IN_BLOCK[b]
+                    hits = [g for g in got if abs(g - want) <= 2e-6]
+                    if len(hits) != 1:
+                        acc.violation('simple_root_lost_or_duplicated',
+                                      {'fn': fn, 'count': 'lost' if not hits else 'duplicated', 'with_cluster': 'out_of_range_twin'},
+                                      case, observed=[core.jz(g) for g in got], expected='%r exactly once' % want,
+                                      detail='roots=%r perm=%r' % (roots, perm))
             # nothing spurious: every returned value is real, in range, near a prescribed real root
             real_in = [x.real for x in map(complex, roots) if abs(x.imag) < 1e-12]
             for g in got:
